@@ -27,6 +27,28 @@ theorem NoSpace.noNL {s : Str} (h : NoSpace s) : NoNL s := by
   · intro e; subst e; exact absurd this.1.1.1.2 (by decide)
   · intro e; subst e; exact absurd this.1.1.2 (by decide)
 
+theorem oneLineAux_noNL (b : Bool) (s : Str) : NoNL (oneLineAux b s) := by
+  induction s generalizing b with
+  | nil => intro c hc; simp [oneLineAux] at hc
+  | cons c s ih =>
+    unfold oneLineAux
+    split
+    · split
+      · exact ih true
+      · intro x hx
+        rcases List.mem_cons.mp hx with rfl | h
+        · exact ⟨by decide, by decide⟩
+        · exact ih true x h
+    · rename_i hc
+      intro x hx
+      rcases List.mem_cons.mp hx with rfl | h
+      · simp only [Bool.or_eq_true, beq_iff_eq, not_or] at hc
+        exact hc
+      · exact ih false x h
+
+/-- whatever the text, what `save` writes for it has no line break -/
+theorem oneLine_noNL (s : Str) : NoNL (oneLine s) := oneLineAux_noNL false s
+
 /-! ### tokens -/
 
 theorem splitRunsAux_ne_nil (b : Bool) (s : Str) : splitRunsAux b s ≠ [] := by
@@ -383,9 +405,8 @@ structure HeaderOK {ν : Type} (io : NumIO ν) (g : Grid ν) : Prop where
   nodata_lt : g.nodata < wordBound g.dtype
   nrows_nonneg : 0 ≤ g.nrows
   ncols_nonneg : 0 ≤ g.ncols
-  name_line : NoNL g.name
-  comment_line : NoNL g.comment
-  parent_lines : ∀ a v, lookup g.parent a = some v → NoNL (v.str io)
+  /-- a text-valued parent attribute (none is created by this module) is a single line -/
+  parent_text : ∀ a s, lookup g.parent a = some (.text s) → NoNL s
   nodata_printable : NodataPrintable io g.dtype g.nodata
 
 theorem nodata_line {ν : Type} (io : NumIO ν) (c : Config ν) (t : DType) (w : Nat) (hw : w < wordBound t)
